@@ -13,7 +13,7 @@ namespace Shape
 theorem nonLC_allows {h b : Instr} (hh : h.isLC = false) (ha : h.fclass.allows b = true) :
     b.isLC = false ∨ b = .catchHandler ∨ b = .apprun := by
   cases hf : h.fclass <;> rw [hf] at ha
-  case body | caa | endpi | cps =>
+  case body | bodyM | caa | endpi | cps =>
     cases b <;> first | (left; rfl) | (right; left; rfl) | (right; right; rfl) | (cases ha; done)
   all_goals
     cases h <;> first | (cases hh; done) | (cases hf; done)
